@@ -230,9 +230,7 @@ class SigmaFilter(SigmaRuleBase):
         for original_cond_name, condition in self.filter.detections.items():
             # Each rule gets its own copy: detections are changed in place by processing
             # pipelines and linked into the rule's condition tree on conversion.
-            rule.detection.detections[prefix + "_" + original_cond_name] = copy.deepcopy(
-                condition
-            )
+            rule.detection.detections[prefix + "_" + original_cond_name] = copy.deepcopy(condition)
 
         # Rewrite the filter condition string so that every identifier/pattern token is
         # prefixed.  This handles:
